@@ -237,6 +237,26 @@ pub struct Exec {
     cache: [Option<VerifTcbSnapshot>; 2],
 }
 
+thread_local! {
+    /// oracle failures already recorded per ident (a run keeps at most 3 replays per ident)
+    static SEEN: std::cell::RefCell<std::collections::HashMap<String, u32>> = std::cell::RefCell::new(Default::default());
+}
+/// record an oracle failure, at most three per ident and run (the rest is only counted)
+pub fn fail(out: &mut Out, what: &str, ident: &str) {
+    let n = SEEN.with(|s| {
+        let mut s = s.borrow_mut();
+        let e = s.entry(ident.to_string()).or_insert(0);
+        *e += 1;
+        *e
+    });
+    out.count(&format!("fail.{}", ident.chars().take(60).collect::<String>()));
+    if n <= 3 {
+        out.fail(what, ident);
+    } else {
+        out.count("oracle_failures");
+    }
+}
+
 pub fn panic_site(p: &PanicInfo) -> (String, String) {
     // (model string, function) from file + source line text
     let text = source_line_text(&p.file, p.line);
@@ -553,7 +573,7 @@ impl Exec {
                 out.line(line, &self.last.clone());
                 self.dead = true;
                 let st = before.as_ref().map(|s| state_str(s.state)).unwrap_or("-");
-                out.fail(
+                fail(out, 
                     &format!("`{}` panicked in state {}: {} ({}:{} `{}`)", line, st, p.msg, p.file, p.line, text),
                     &format!("panic {} {}", func, text),
                 );
@@ -574,7 +594,7 @@ impl Exec {
             let sent = &self.side(x.peer()).submitted;
             if !sent.starts_with(got) {
                 let k = got.iter().zip(sent.iter()).take_while(|(a, b)| a == b).count();
-                out.fail(
+                fail(out, 
                     &format!(
                         "bytes delivered to {} are not a prefix of the bytes submitted by {}: {} delivered, {} submitted, first difference at offset {}",
                         x.name(), x.peer().name(), got.len(), sent.len(), k
@@ -602,7 +622,7 @@ impl Exec {
                         self.side_mut(x).max_rel_end = rel_end;
                         let off_end = h.seq.wrapping_sub(una) as u64 + tlen as u64;
                         if off_end > wnd + syn_unacked {
-                            out.fail(
+                            fail(out, 
                                 &format!(
                                     "new data segment seq={} len={} ends {} past SND.UNA={} but the peer's window is {}",
                                     h.seq, tlen, off_end, una, wnd
@@ -620,7 +640,7 @@ impl Exec {
                 out.count("unacceptable_segments");
                 let st = state_str(b.state);
                 match after {
-                    None => out.fail(
+                    None => fail(out, 
                         &format!("unacceptable segment `{}` (seq={} RCV.NXT={} wnd={}) deleted the TCB in state {}", w.join(" "), h.seq, b.rcv.1, b.rcv.2, st),
                         &format!("unacceptable-segment tcb-deleted in {}", st),
                     ),
@@ -648,7 +668,7 @@ impl Exec {
                             what.push("timer-changed");
                         }
                         for k in what {
-                            out.fail(
+                            fail(out, 
                                 &format!(
                                     "unacceptable segment `{}` (ctl={} seq={} len={} vs RCV.NXT={} RCV.WND={}) in state {}: {}",
                                     w.join(" "), u8::from(h.ctl), h.seq, len, b.rcv.1, b.rcv.2, st, k
@@ -704,7 +724,7 @@ impl Exec {
                 guard += 1;
                 if guard > 20000 {
                     if check {
-                        out.fail("fair delivery never quiesces (segments keep being exchanged)", "no-quiescence");
+                        fail(out, "fair delivery never quiesces (segments keep being exchanged)", "no-quiescence");
                     }
                     return;
                 }
@@ -719,7 +739,7 @@ impl Exec {
             if rtos > max_rtos {
                 if check && !self.tainted {
                     let d = |x: SideId| self.snap_ref(x).map(|s| format!("{} rtx={} unsent={} heap={}", state_str(s.state), s.retransmit.len(), s.outgoing_text.len(), s.incoming_segments.len())).unwrap_or("no TCB".into());
-                    out.fail(
+                    fail(out, 
                         &format!(
                             "after {} loss-free RTO rounds: A submitted {} B delivered {}; B submitted {} A delivered {}; A: {}; B: {}",
                             max_rtos, self.a.submitted.len(), self.b.delivered.len(), self.b.submitted.len(), self.a.delivered.len(), d(SideId::A), d(SideId::B)
@@ -741,7 +761,7 @@ impl Exec {
                 self.apply(&format!("tick {} 150", x.name()), out);
                 self.apply(&format!("emit {}", x.name()), out);
                 if check && !self.tainted && !self.last_emitted.is_empty() {
-                    out.fail(&format!("{} still transmits after everything was delivered and acknowledged", x.name()), "not-silent");
+                    fail(out, &format!("{} still transmits after everything was delivered and acknowledged", x.name()), "not-silent");
                 }
             }
         }
